@@ -1,5 +1,7 @@
 CONSTANTS MaxOps = 3
   Lens = {1, 2, 3, 4}
+  FullDepth = 2
+  LateOps <- DefaultLateOps
 INIT Init
 NEXT Next
 INVARIANTS LengthIsSerialisedSize Emit
